@@ -39,8 +39,8 @@ theorem lenState_spec (l : BitVec 32) : (lenState l).toNat = Lzma.lenState l.toN
 
 theorem updateStateLiteral_spec (s : T_state) :
     state_updateStateLiteral s = { s with state := BitVec.ofNat 32 (Lzma.updLit s.state.toNat) } := by
-  obtain ⟨st, m, pr⟩ := s
-  have := st.isLt
+  -- (no destructuring of `s`: the generated structure grows when the translator's subset grows)
+  have := s.state.isLt
   simp only [state_updateStateLiteral, Lzma.updLit, BitVec.ult, BitVec.toNat_ofNat, decide_eq_true_eq]
   split
   · simp_all
